@@ -76,7 +76,10 @@ class WalkCounterSrc(CachedWalkMapper):
     """handlers return None: a cached None must still count as a hit"""
 
     def post_visit(self, expr):
-        CALLS.append(("walk", type(expr).__name__, repr(expr), id(self)))
+        # the full structural key: repr() elides deep sub-terms ("Product((...,))")
+        from pbt import walk
+        CALLS.append(("walk", type(expr).__name__, repr(walk.key(expr, strict=True)),
+                      id(self)))
 
     def get_cache_key(self, expr):
         return (type(expr), expr)
